@@ -219,6 +219,14 @@ class TreeSuite(Suite):
                 pids, xyz = np_, nx
             t = {"n": len(pids), "pids": pids, "types": [1] + [3] * (len(pids) - 1), "xyz": xyz, "r": [1.0] * len(pids)}
             out.append({"class": "iso-coincident-ends/named", "tree": t, "op": "iso", "arg": rng.choice([0.5, 1.0, 1.5]), "warm": [None, 3.0, 2.5][m % 3]})
+        # branches that pass through the position of one of their own end points (a tip overshot and traced back, a hairpin that returns
+        # to the furcation before going on): the sample that falls there is an ordinary interior node
+        for d in (1.0, 0.5):
+            t = {"n": 4, "pids": [-1, 0, 1, 2], "types": [1, 3, 3, 3], "xyz": [[0.0, 0.0, 0.0], [2.0, 0.0, 0.0], [4.0, 0.0, 0.0], [2.0, 0.0, 0.0]], "r": [1.0] * 4}
+            out.append({"class": "iso/revisit-tip", "tree": t, "op": "iso", "arg": d, "warm": None})
+            t = {"n": 7, "pids": [-1, 0, 1, 2, 3, 1, 5], "types": [1] + [3] * 6,
+                 "xyz": [[0.0, 0.0, 0.0], [2.0, 0.0, 0.0], [2.0, 2.0, 0.0], [2.0, 0.0, 0.0], [2.0, -2.0, 0.0], [3.0, 0.0, 1.0], [3.0, 0.0, 3.0]], "r": [1.0] * 7}
+            out.append({"class": "iso/revisit-furcation", "tree": t, "op": "iso", "arg": d, "warm": None})
         # long branches with coordinates that are not on a lattice (segment lengths are irrational, float32 sums round): a stem and
         # two daughters of 8–12 segments each
         for rep in range(12 if not big else 40):
@@ -354,8 +362,8 @@ class TreeSuite(Suite):
                     if x in set(cr_in):
                         break
                 n_expected = int(math.ceil(Lb / d)) + 1
-                if abs(Lb / d - round(Lb / d)) < 1e-3:
-                    continue      # the branch length is a multiple of the spacing up to rounding: either count is right
+                if case["class"].startswith("iso/float") and abs(Lb / d - round(Lb / d)) < 1e-3:
+                    continue      # an irrational branch length that is a multiple of the spacing up to rounding: either count is right
                 if len(chain) != n_expected:
                     out.append(("resample-branch-count", f"a branch of length {Lb} resampled at {d} has {len(chain)} nodes, expected ceil(L/d)+1 = {n_expected}")); break
                 if max(gaps) > Lb / (n_expected - 1) + 1e-4:
